@@ -2830,3 +2830,39 @@ def thread_io_rules(ctx, rule="R-EXIT"):
         ctx.ob("R-ORDER", k, "thread-io/proxy-stores-true", okv, "the proxy stores `true`" if okv else "the proxy does not store `true` into the done flag: the thread never leaves its wait", g.where())
     if done_store is None:
         ctx.missing("R-ORDER", "may::io::thread", "thread-io/proxy-sets-done-then-unparks", "the proxy coroutine's unpark of the master thread was not found")
+
+
+# ------------------------------------------------------------------------------------------------
+# F38: the timeout of a blocked io operation runs from the first time it blocked
+
+def io_timer_runs_from_first_block(ctx, rule="R-NUM"):
+    """An io operation blocks again after every event that does not complete it (fds are registered for read AND write events: a reader is woken
+    by write-space edges raised by a writer on a clone of the socket); each time its subscriber arms the io timer again. The interval armed must
+    be what is LEFT of the operation's timeout - derived from a deadline fixed when the operation first blocked (a clock sample in its dataflow) -
+    not the full configured timeout, or the timeout never fires as long as such events keep coming (finding F38)."""
+    an = ctx.an
+    for k, g in sorted(ctx.prog.fns.items()):
+        if not re.fullmatch(r"may::io::sys::\w+::Selector::add_io_timer", k): continue
+        ctx.fns_touched.add(k)
+        arms = an.sites(g, Call(r"may::timeout_list::TimeOutList::add_timer", transitive=False), "must")
+        if not arms:
+            ctx.missing(rule, k, "io-timer/runs-from-first-block", "no TimeOutList::add_timer call in %s" % k); continue
+        bad = []
+        for pt in sorted(arms):
+            o = simplify(trace_operand(g, g.node(pt)["args"][1]))
+            smp = set(); _time_samples(g, o, smp)
+            plain_param = root_of(o)[0] == "arg" and not smp
+            if not plain_param: continue
+            # the interval is the caller's value unchanged: do the callers pass what is left, or their configured timeout?
+            full = []
+            for h, q in sorted(ctx.prog.callers().get(k, ()), key=lambda x: (x[0].id, x[1])):
+                a = simplify(trace_operand(h, h.node(q)["args"][2])) if len(h.node(q)["args"]) > 2 else None
+                if a is None: continue
+                s2 = set(); _time_samples(h, a, s2)
+                if not s2: full.append(h.id)
+            if full: bad.append((pt, full))
+        ctx.ob(rule, k, "io-timer/runs-from-first-block", not bad,
+               "the io timer is armed with what is left of the operation's timeout" if not bad else
+               "%s arms the io timer with the caller's value unchanged and %d subscribers pass their full configured timeout each time they block (e.g. %s): an operation that is woken by "
+               "events which do not complete it (write-space edges for a reader) re-arms the full timeout on every wake-up and never times out while they keep coming" %
+               (k, len(bad[0][1]), bad[0][1][0].split(" as ")[0].lstrip("<").rsplit("::", 1)[-1]), g.where(bad[0][0]) if bad else g.where(sorted(arms)[0]))
